@@ -128,7 +128,7 @@ def main():
         sys.exit(2)
     known = [k for k in P.load_known() if k["property"] == prop and k.get("status") != "fixed"]
     solver = os.environ.get("VERIF_SOLVER", "kissat")
-    timeout = 120 if tier == "quick" else 900
+    timeout = 300 if tier == "quick" else 900
     tasks = []
     schemas = {}
     for name, pinfo in sorted(corpus.programs.items()):
@@ -197,7 +197,8 @@ def main():
     # the repository's own (large) theories are an extra of the thorough tier: a lemma that runs into the time / memory limits on one
     # of them is recorded as undecided (nothing is claimed for it); it does not make the check inconclusive
     def is_limit(r):
-        return corpus.programs[r["program"]].get("kind") == "repo" and any(w in r.get("reason", "") for w in ("Timeout", "timeout", "MemoryError", "time limit"))
+        # kernels must be decided; sampled programs (random, repository theories) that run into the limits are listed as undecided
+        return corpus.programs[r["program"]].get("kind") in ("repo", "random") and any(w in r.get("reason", "") for w in ("Timeout", "timeout", "MemoryError", "time limit"))
     undecided = [r for r in results if r["status"] == "inconclusive" and is_limit(r)]
     inconclusive = [r for r in results if r["status"] == "inconclusive" and not is_limit(r)]
     failed = [r for r in results if r["status"] == "failed"]
